@@ -9,7 +9,7 @@ CHECK = {
     "manifest": {
         "engine": "ENUM",
         "technique": "bounded-exhaustive enumeration against a reference model",
-        "text": "Every Config message of the alphabet is serialised and handed to the real parseConfig: all subsets of versions x protocols x stream types (thorough: all 32 subsets, quick: the 8 subsets of unary/half/full) x all 3^7 tri-states of the seven support flags (thorough: once with one explicit codec/compression, once with both left to their defaults); the design's 6 codec x 4 compression choices on all version/protocol subsets x 3^4 transport flags; include/exclude lists of one entry over all 7,776 entries (every field independently omitted) on 48 feature bases (quick: 8), lists of two (include+exclude, 2 includes, 2 excludes) over a 40-entry subset (quick: 14), 2+2 lists on four bases (thorough); forms: protojson of the Go struct, block-style YAML with proto field names for a sub-family, empty input for the default configuration, reordered lists with a repeated element. The returned slice is compared as a set with Spec = cases implied by the defaulted features + matches of include entries - matches of exclude entries, computed by set algebra over the universe of 8,640 config cases; every produced case is checked against the property's list of impossible combinations; required, acceptable and unexpected errors are told apart. quick ~1.49 M, thorough ~8.2 M configurations.",
+        "text": "Every Config message of the alphabet is serialised and handed to the real parseConfig: all subsets of versions x protocols x stream types (thorough: all 32 subsets, quick: the 8 subsets of unary/half/full) x all 3^7 tri-states of the seven support flags (thorough: once with one explicit codec/compression, once with both left to their defaults); the design's 6 codec x 4 compression choices on all version/protocol subsets x 3^4 transport flags; the codecs field as an ordered list: every arrangement of every subset of {proto, json, text} with two or three elements plus two lists with a repeated element (14 lists; the deprecated CODEC_TEXT first, in the middle and last) on all version/protocol subsets x 3^4 transport flags (thorough: also with explicit compressions and as YAML); include/exclude lists of one entry over all 7,776 entries (every field independently omitted) on 48 feature bases (quick: 8) plus 4 (quick: 2) bases whose codecs list has CODEC_TEXT in front of or between the codecs in use, lists of two (include+exclude, 2 includes, 2 excludes) over a 40-entry subset (quick: 14), 2+2 lists on four bases (thorough); forms: protojson of the Go struct, block-style YAML with proto field names for a sub-family, empty input for the default configuration, reordered lists with a repeated element. The returned slice is compared as a set with Spec = cases implied by the defaulted features + matches of include entries - matches of exclude entries, computed by set algebra over the universe of 8,640 config cases; every produced case is checked against the property's list of impossible combinations; required, acceptable and unexpected errors are told apart. quick ~1.49 M, thorough ~8.2 M configurations.",
         "note": "Spec is written from config.proto, the docs and the property text, not from config.go. Violation keys are kind + the smallest configuration (greedy one-step simplification) that still shows the kind.",
         "design_ref": "DESIGN.md §2.2, §4 C06",
     },
